@@ -7,20 +7,40 @@
    The theorems named C15_pinned_*_refuted record, on the model of the pinned
    tree's design, why those repairs were needed. *)
 From Coq Require Import ZArith.
-From XV Require Import lib.Bytes lib.Base64 lib.Lts gen.Ibb C15.Model C15.Proofs C15.ProofsMore.
+From XV Require Import lib.Bytes lib.Base64 lib.Lts gen.Ibb C15.Model C15.Proofs C15.ProofsRecv C15.ProofsMore.
+
+(* ---------------------------------------------------------------------- *)
+(* what the model takes from the source's statement order                   *)
+(* ---------------------------------------------------------------------- *)
+
+(* handlePayload: the wake-up of a pending Read is an unconditional statement
+   after the append and no successful return lies between them - on either
+   carrier an accepted packet reaches the notify. *)
+Theorem C15_src_notify_on_every_success_path :
+  ibb_payload_notify_unconditional = true /\ ibb_payload_success_returns_before_notify = 0.
+Proof. exact tbl_notify_on_every_success_path. Qed.
+Print Assumptions C15_src_notify_on_every_success_path.
+
+(* rmStream deletes an entry only if it refers to the connection being closed;
+   Close and closeNoNotify reach it only after markClosed has succeeded. *)
+Theorem C15_src_unregister_is_guarded :
+  ibb_rmstream_guarded = true /\
+  ibb_close_closeread_after_markclosed = true /\
+  ibb_closenonotify_closeread_after_markclosed = true /\
+  ibb_closeread_call_sites = 2.
+Proof. exact tbl_unregister_is_guarded. Qed.
+Print Assumptions C15_src_unregister_is_guarded.
 
 (* ---------------------------------------------------------------------- *)
 (* opening                                                                 *)
 (* ---------------------------------------------------------------------- *)
 
 (* Open succeeds only on a reply of type result; a refused open request
-   returns no connection, registers nothing (the stream stays unknown), and an
-   open request that nobody listens for is refused with not-acceptable. *)
+   returns no connection and leaves the handler exactly as it was; an open
+   request that nobody listens for is refused with not-acceptable. *)
 Theorem C15_open_only_if_accepted :
   (forall r, open_succeeds r = true -> r = OpenResult) /\
   (forall h sid bs, h_step h (EOpenLocal sid bs false) = (h, OOpen false)) /\
-  (forall h sid bs, lookup h sid = None ->
-     lookup (fst (h_step h (EOpenLocal sid bs false))) sid = None) /\
   (forall h sid bs, h_step h (EOpenRemote sid bs false) = (h, OReply (RErr NotAcceptable))).
 Proof. exact open_only_if_accepted. Qed.
 Print Assumptions C15_open_only_if_accepted.
@@ -50,36 +70,41 @@ Print Assumptions C15_packets_carry_written.
 (* the pipe                                                                *)
 (* ---------------------------------------------------------------------- *)
 
-(* Whatever else happens on the handler — reads of any size at any time, bad
-   packets, other streams, buffer limits, closes — if the packets accepted for
-   a stream are those of a sender, then what the application has read followed
-   by what is still buffered is what was buffered before followed by exactly
-   the bytes written: once, in order, unmodified. *)
-Theorem C15_pipe_any_interleaving : forall es h h' os sid bs seq0 ops,
-  h_run h es = (h', os) ->
-  accepted_packets sid es os = sender bs seq0 ops ->
-  reads_of sid es os ++ buf_of h' sid = buf_of h sid ++ written ops.
-Proof. exact pipe_any_interleaving. Qed.
-Print Assumptions C15_pipe_any_interleaving.
-
-(* The same without any assumption about who sent what: reads and buffer are
-   always the bytes of the accepted packets, in order. *)
-Theorem C15_stream_integrity : forall es h h' os sid,
-  h_run h es = (h', os) ->
-  reads_of sid es os ++ buf_of h' sid = buf_of h sid ++ accepted_bytes sid es os.
+(* Stream integrity for every connection and every history of a handler,
+   session identifiers reused at will: the bytes read from a connection,
+   followed by what is buffered for it, are exactly the bytes of the data
+   packets accepted while it was the connection registered under their
+   identifier - once, in order, unmodified. *)
+Theorem C15_stream_integrity : forall es h' os id c',
+  h_run h_empty es = (h', os) -> get h' id = Some c' ->
+  reads_of id es os ++ rc_buf c' = concat (map payload_of (accepted_to id h_empty es)).
 Proof. exact stream_integrity. Qed.
 Print Assumptions C15_stream_integrity.
 
-(* Delivered in order to an open connection that has room by the receiver's
-   own estimate (or no limit), all packets of a sender are accepted — on either
-   carrier — and the buffer grows by exactly the bytes written. *)
-Theorem C15_pipe_delivers_exactly : forall bs ops h iq sid c,
-  lookup h sid = Some c -> rc_rclosed c = false ->
+(* Whatever else happens on the handler - reads of any size at any time, bad
+   packets, other streams, older and newer streams under the same identifier,
+   redundant Close calls, buffer limits - if the packets accepted for a
+   connection are those of a sender, what the application has read followed by
+   what is still buffered is exactly the bytes written. *)
+Theorem C15_pipe_any_interleaving : forall es h' os id c' bs seq0 ops,
+  h_run h_empty es = (h', os) -> get h' id = Some c' ->
+  accepted_to id h_empty es = sender bs seq0 ops ->
+  reads_of id es os ++ rc_buf c' = written ops.
+Proof. exact pipe_any_interleaving. Qed.
+Print Assumptions C15_pipe_any_interleaving.
+
+(* Delivered in order to the connection registered under the identifier, which
+   has room by the receiver's own estimate (or no limit), all packets of a
+   sender are accepted - on either carrier - the buffer grows by exactly the
+   bytes written, and no other connection is touched. *)
+Theorem C15_pipe_delivers_exactly : forall bs ops h iq sid id c,
+  lookup h sid = Some (id, c) -> rc_rclosed c = false ->
   has_room c (map p_data (sender bs (rc_seq c) ops)) ->
   exists h' c',
     h_run h (deliver iq sid (sender bs (rc_seq c) ops)) =
       (h', repeat (OReply (if iq then RAck else RSilent)) (length (sender bs (rc_seq c) ops))) /\
-    lookup h' sid = Some c' /\ rc_buf c' = rc_buf c ++ written ops /\ rc_rclosed c' = false.
+    lookup h' sid = Some (id, c') /\ rc_buf c' = rc_buf c ++ written ops /\ rc_rclosed c' = false /\
+    (forall j, j <> id -> get h' j = get h j).
 Proof. exact pipe_delivers_exactly_room. Qed.
 Print Assumptions C15_pipe_delivers_exactly.
 
@@ -95,11 +120,11 @@ Print Assumptions C15_room_estimate.
 
 (* Unknown or closed session: item-not-found; out of sequence:
    unexpected-request; over the buffer limit: resource-constraint;
-   undecodable: bad-request — and in each case the handler's state is exactly
+   undecodable: bad-request - and in each case the handler's state is exactly
    what it was. *)
 Theorem C15_bad_packets_refused : forall h iq sid seq data,
   (lookup h sid = None -> handle_payload h iq sid seq data = (h, RErr ItemNotFound)) /\
-  (forall c, lookup h sid = Some c ->
+  (forall id c, lookup h sid = Some (id, c) ->
      (rc_rclosed c = true -> handle_payload h iq sid seq data = (h, RErr ItemNotFound)) /\
      (rc_rclosed c = false -> seq <> rc_seq c ->
         handle_payload h iq sid seq data = (h, RErr UnexpectedRequest)) /\
@@ -117,72 +142,140 @@ Proof. exact refused_leaves_state. Qed.
 Print Assumptions C15_refused_leaves_state.
 
 (* A packet with none of the four defects is accepted (acknowledged on the iq
-   carrier, silently on the message carrier) and appended. *)
-Theorem C15_good_packet_accepted : forall h iq sid seq data c d,
-  lookup h sid = Some c -> rc_rclosed c = false -> seq = rc_seq c -> fits c data = true ->
+   carrier, silently on the message carrier), appended to the connection
+   registered under the identifier and to no other. *)
+Theorem C15_good_packet_accepted : forall h iq sid seq data id c d,
+  lookup h sid = Some (id, c) -> rc_rclosed c = false -> seq = rc_seq c -> fits c data = true ->
   decode_go data = Some d ->
-  snd (handle_payload h iq sid seq data) = (if iq then RAck else RSilent) /\
-  buf_of (fst (handle_payload h iq sid seq data)) sid = rc_buf c ++ d.
+  handle_payload h iq sid seq data =
+    (upd h id (fun _ => accept_data c seq data d), if iq then RAck else RSilent) /\
+  buf_of (fst (handle_payload h iq sid seq data)) id = rc_buf c ++ d /\
+  (forall j, j <> id -> get (fst (handle_payload h iq sid seq data)) j = get h j) /\
+  lookup (fst (handle_payload h iq sid seq data)) sid = Some (id, accept_data c seq data d).
 Proof. exact good_packet_accepted. Qed.
 Print Assumptions C15_good_packet_accepted.
 
 (* Nothing was ever opened: data and close requests are refused. *)
 Theorem C15_unopened_is_unknown : forall iq sid seq data,
-  h_step [] (EData iq sid seq data) = ([], OReply (RErr ItemNotFound)) /\
-  h_step [] (ECloseRemote sid) = ([], OReply (RErr ItemNotFound)).
+  h_step h_empty (EData iq sid seq data) = (h_empty, OReply (RErr ItemNotFound)) /\
+  h_step h_empty (ECloseRemote sid) = (h_empty, OReply (RErr ItemNotFound)).
 Proof. exact unopened_is_unknown. Qed.
 Print Assumptions C15_unopened_is_unknown.
+
+(* ---------------------------------------------------------------------- *)
+(* session identifiers are reused                                           *)
+(* ---------------------------------------------------------------------- *)
+
+(* Opening under an identifier - fresh, in use, or used before - registers the
+   new connection under it; every existing connection stays what it is. *)
+Theorem C15_open_registers_new : forall h sid bs,
+  lookup (add_conn h sid bs) sid = Some (length (h_conns h), new_conn sid bs) /\
+  (forall id c, get h id = Some c -> get (add_conn h sid bs) id = Some c).
+Proof. exact open_registers_new. Qed.
+Print Assumptions C15_open_registers_new.
+
+(* Close on one connection never changes which connection is registered under
+   an identifier when that is another connection - in particular a newer
+   stream under the same identifier survives the Close of an older one. *)
+Theorem C15_old_close_keeps_new_stream : forall h id sid j c,
+  lookup h sid = Some (j, c) -> j <> id ->
+  lookup (fst (h_step h (ECloseLocal id))) sid = Some (j, c) /\
+  snd (h_step h (ECloseLocal id)) = ONone.
+Proof. exact old_close_keeps_new_stream. Qed.
+Print Assumptions C15_old_close_keeps_new_stream.
+
+(* A second Close on a closed connection does nothing at all. *)
+Theorem C15_redundant_close_is_noop : forall h id c,
+  get h id = Some c -> rc_rclosed c = true -> h_step h (ECloseLocal id) = (h, ONone).
+Proof. exact redundant_close_is_noop. Qed.
+Print Assumptions C15_redundant_close_is_noop.
+
+(* After every history the connection registered under an identifier carries
+   that identifier and is open: packets never reach a closed connection. *)
+Theorem C15_registered_is_open : forall es h os sid id c,
+  h_run h_empty es = (h, os) -> lookup h sid = Some (id, c) ->
+  rc_sid c = sid /\ rc_rclosed c = false.
+Proof. exact registered_is_open. Qed.
+Print Assumptions C15_registered_is_open.
+
+(* A closed connection stays closed and never receives another packet,
+   whatever happens later - reopening under its identifier included. *)
+Theorem C15_closed_conn_is_frozen : forall es h h' os id c,
+  inv h -> h_run h es = (h', os) -> get h id = Some c -> rc_rclosed c = true ->
+  exists c', get h' id = Some c' /\ rc_rclosed c' = true /\ rc_pk c' = rc_pk c /\ rc_sid c' = rc_sid c.
+Proof. exact closed_conn_is_frozen. Qed.
+Print Assumptions C15_closed_conn_is_frozen.
+
+(* every handler reachable from the empty one satisfies the invariant used above *)
+Theorem C15_inv_reachable : forall es h os, h_run h_empty es = (h, os) -> inv h.
+Proof. exact (fun es h os => inv_run es h_empty h os inv_empty). Qed.
+Print Assumptions C15_inv_reachable.
 
 (* ---------------------------------------------------------------------- *)
 (* close                                                                   *)
 (* ---------------------------------------------------------------------- *)
 
-(* A close request for an open stream is acknowledged; from then on every
-   data packet for it is refused with item-not-found and changes nothing; the
-   application reads what was buffered, in non-empty pieces, and then
-   end-of-file. *)
-Theorem C15_close_then_drain : forall h sid c n,
-  0 < n -> lookup h sid = Some c ->
+(* A close request for a registered stream is acknowledged; from then on every
+   data packet for the identifier is refused with item-not-found and changes
+   nothing; the application reads what was buffered, in non-empty pieces, and
+   then end-of-file. *)
+Theorem C15_close_then_drain : forall h sid id c n,
+  0 < n -> lookup h sid = Some (id, c) -> rc_sid c = sid ->
   let h1 := fst (h_step h (ECloseRemote sid)) in
   snd (h_step h (ECloseRemote sid)) = OReply RAck /\
   (forall iq seq data, handle_payload h1 iq sid seq data = (h1, RErr ItemNotFound)) /\
   exists k h' pre,
-    h_run h1 (repeat (ERead sid n) (S k)) = (h', pre ++ [ORead [] true]) /\
+    h_run h1 (repeat (ERead id n) (S k)) = (h', pre ++ [ORead [] true]) /\
     Forall (fun o => exists d, o = ORead d false /\ d <> []) pre /\
-    reads_of sid (repeat (ERead sid n) (S k)) (pre ++ [ORead [] true]) = rc_buf c.
+    reads_of id (repeat (ERead id n) (S k)) (pre ++ [ORead [] true]) = rc_buf c.
 Proof. exact close_then_drain. Qed.
 Print Assumptions C15_close_then_drain.
 
+(* The same for the application's own Close: afterwards the connection is not
+   registered under its identifier any more, and its reader drains the buffer
+   and then reads end-of-file. *)
+Theorem C15_local_close_then_drain : forall h id c n,
+  0 < n -> get h id = Some c -> rc_rclosed c = false ->
+  let h1 := fst (h_step h (ECloseLocal id)) in
+  (forall sid j cj, lookup h1 sid = Some (j, cj) -> j <> id \/ rc_sid c <> sid) /\
+  exists k h' pre,
+    h_run h1 (repeat (ERead id n) (S k)) = (h', pre ++ [ORead [] true]) /\
+    Forall (fun o => exists d, o = ORead d false /\ d <> []) pre /\
+    reads_of id (repeat (ERead id n) (S k)) (pre ++ [ORead [] true]) = rc_buf c.
+Proof. exact local_close_then_drain. Qed.
+Print Assumptions C15_local_close_then_drain.
+
 (* The peer's close request is always answered: for every state of a registered
-   stream — after every history, including one in which a data packet of the
+   stream - after every history, including one in which a data packet of the
    local writer was refused and its error is still pending in the buffered
-   writer — the request is acknowledged, the stream is deregistered and what
+   writer - the request is acknowledged, the stream is deregistered and what
    was buffered for the reader is untouched. *)
-Theorem C15_peer_close_always_answered : forall h sid c,
-  lookup h sid = Some c ->
-  h_step h (ECloseRemote sid) = (update h sid set_rclosed, OReply RAck) /\
-  lookup (update h sid set_rclosed) sid = None /\
-  buf_of (update h sid set_rclosed) sid = rc_buf c /\
-  find_conn (update h sid set_rclosed) sid = Some (set_rclosed c).
+Theorem C15_peer_close_always_answered : forall h sid id c,
+  lookup h sid = Some (id, c) ->
+  h_step h (ECloseRemote sid) = (close_conn h id, OReply RAck) /\
+  get (close_conn h id) id = Some (set_rclosed c) /\
+  buf_of (close_conn h id) id = rc_buf c /\
+  (rc_sid c = sid -> lookup (close_conn h id) sid = None).
 Proof. exact peer_close_always_answered. Qed.
 Print Assumptions C15_peer_close_always_answered.
 
-Theorem C15_peer_close_answered_after_any_history : forall es h os sid c,
-  h_run [] es = (h, os) -> lookup h sid = Some c ->
-  snd (h_step h (ECloseRemote sid)) = OReply RAck.
+Theorem C15_peer_close_answered_after_any_history : forall es h os sid id c,
+  h_run h_empty es = (h, os) -> lookup h sid = Some (id, c) ->
+  snd (h_step h (ECloseRemote sid)) = OReply RAck /\
+  lookup (fst (h_step h (ECloseRemote sid))) sid = None.
 Proof. exact peer_close_answered_after_any_history. Qed.
 Print Assumptions C15_peer_close_answered_after_any_history.
 
 (* A refused data packet is the local writer's business: that Write/Flush
-   fails, every later one fails too and sends nothing, the read side and the
-   registration are unchanged. *)
-Theorem C15_refused_write_sticks : forall h sid c,
-  find_conn h sid = Some c -> rc_rclosed c = false -> rc_werr c = false ->
-  let h1 := update h sid set_werr in
-  h_step h (EWrite sid false) = (h1, OWrite false) /\
-  (forall acc, h_step h1 (EWrite sid acc) = (h1, OWrite false)) /\
-  (forall s, buf_of h1 s = buf_of h s) /\
-  (lookup h sid = Some c -> lookup h1 sid = Some (set_werr c)).
+   fails, every later one fails too and sends nothing, the table and the read
+   side are unchanged. *)
+Theorem C15_refused_write_sticks : forall h id c,
+  get h id = Some c -> rc_rclosed c = false -> rc_werr c = false ->
+  let h1 := upd h id set_werr in
+  h_step h (EWrite id false) = (h1, OWrite false) /\
+  (forall acc, h_step h1 (EWrite id acc) = (h1, OWrite false)) /\
+  (forall j, buf_of h1 j = buf_of h j) /\
+  h_tbl h1 = h_tbl h.
 Proof. exact refused_write_sticks. Qed.
 Print Assumptions C15_refused_write_sticks.
 
@@ -201,6 +294,20 @@ Theorem C15_reader_no_lost_wakeup : forall tr s,
      exists s' b, lstep s LWait = Some s' /\ l_pc s' = PWoken n b).
 Proof. exact reader_no_lost_wakeup. Qed.
 Print Assumptions C15_reader_no_lost_wakeup.
+
+(* The wake-up does not depend on the carrier: an accepted packet in an iq or
+   in a message hands the signal to a reader blocked in the receive, and queues
+   it for a reader that has found the buffer empty and not yet started to wait. *)
+Theorem C15_deliver_wakes_reader_on_either_carrier : forall s iq d n,
+  l_closed s = false ->
+  (l_pc s = PRecv n ->
+     exists s', lstep s (LDeliver iq d) = Some s' /\ l_pc s' = PWoken n true /\ l_buf s' = l_buf s ++ d /\
+                hd_error (l_log s') = Some (accepted_obs iq)) /\
+  (l_pc s = PChecked n ->
+     exists s', lstep s (LDeliver iq d) = Some s' /\ l_pc s' = PChecked n /\ l_tok s' = true /\
+                l_buf s' = l_buf s ++ d /\ hd_error (l_log s') = Some (accepted_obs iq)).
+Proof. exact deliver_wakes_reader. Qed.
+Print Assumptions C15_deliver_wakes_reader_on_either_carrier.
 
 (* Progress: in every reachable state with data buffered, the reader's own
    steps alone (at most: leave the yield point, lock, read) make Read return
@@ -244,8 +351,8 @@ Proof. exact reads_in_order. Qed.
 Print Assumptions C15_reads_in_order.
 
 (* After the close nothing is delivered any more. *)
-Theorem C15_closed_refuses : forall s d s',
-  l_closed s = true -> lstep s (LDeliver d) = Some s' ->
+Theorem C15_closed_refuses : forall s iq d s',
+  l_closed s = true -> lstep s (LDeliver iq d) = Some s' ->
   l_buf s' = l_buf s /\ l_delivered s' = l_delivered s /\ hd_error (l_log s') = Some BRefused.
 Proof. exact closed_refuses. Qed.
 Print Assumptions C15_closed_refuses.
@@ -288,3 +395,11 @@ Theorem C15_stale_close_unanswered_refuted :
   exists c, rc_werr c = true /\ rc_rclosed c = false /\ close_remote_reply_stale c = None.
 Proof. exact stale_write_error_left_close_unanswered. Qed.
 Print Assumptions C15_stale_close_unanswered_refuted.
+
+(* main before fix "closing a stream does not unregister a newer stream with
+   the same session ID": the unguarded rmStream removed the newer stream *)
+Theorem C15_unguarded_rmstream_refuted :
+  exists t sid id j, tbl_find t sid = Some j /\ j <> id /\ tbl_find (tbl_rm_unguarded t sid id) sid = None /\
+                     tbl_find (tbl_rm t sid id) sid = Some j.
+Proof. exact unguarded_rm_unregisters_new_stream. Qed.
+Print Assumptions C15_unguarded_rmstream_refuted.
